@@ -601,6 +601,14 @@ def main():
         if h_now[pid] != "compiled":
             n = next(k for k in owner if k[0] == "h" and owner[k][1]["id"] == pid)
             violations.append(("ordinary_usage_rejected:" + pid, "a value obtained through temporary handles and used while its transaction is still open (`let r = { ..handles..; %s }; use(&r)`) compiled with the pinned types and is now rejected (%s)" % (owner[n][1]["expr"], h_now[pid]), {"program": fns[n], "producer": pid, "route": "h"}))
+    # the verification harness is itself an ordinary client of the public API
+    if "--harness-build-failed" in sys.argv:
+        logp = sys.argv[sys.argv.index("--harness-build-failed") + 1]
+        try:
+            errs = [l.rstrip() for l in open(logp) if l.startswith("error")][:4]
+        except Exception:
+            errs = []
+        violations.append(("ordinary_usage_rejected:verification-harness", "the verification harness, a client that uses the public API in the documented way (slices, Strings and byte vectors as keys and names, handles and cursors inside one transaction), no longer compiles against the library: %s" % " | ".join(errs), {"program": "/verif/mc (cargo build)", "build_log_first_errors": errs}))
     # argument / database routes must be rejected
     for n, _ in ARG_ROUTES:
         st = res.get(n, ("type", [], []))
